@@ -82,6 +82,21 @@ class NoRep:
         return 'NoRep()'
 
 
+class RLoader(yaml.SafeLoader):
+    pass
+
+
+class RDumper(yaml.SafeDumper):
+    pass
+
+
+# a wildcard (first=None) resolver plus a resolver for specific first characters, as applications register them
+RLoader.add_implicit_resolver('!any-span', re.compile(r'^[0-9a-z]+-[0-9a-z]+$'), None)
+RLoader.add_implicit_resolver('!digit-span', re.compile(r'^[0-9]+-[0-9]+$'), list('0123456789'))
+RDumper.add_implicit_resolver('!any-span', re.compile(r'^[0-9a-z]+-[0-9a-z]+$'), None)
+RDumper.add_implicit_resolver('!digit-span', re.compile(r'^[0-9]+-[0-9]+$'), list('0123456789'))
+
+
 LOAD_DOCS = [
     ('plain', 'a: 1\nb: [x, 2.5, ~]\n'), ('anchored', '- &a [1, 2]\n- *a\n- &b {k: *a}\n- *b\n'), ('recursive', '&r [1, *r, {k: *r}]\n'),
     ('directives', '%YAML 1.1\n%TAG !e! tag:e.com,2000:\n--- !e!x\n- !e!y z\n'), ('redef-bang', '%TAG ! tag:e.com,2000:\n--- !x y\n'),
@@ -109,6 +124,10 @@ def pool():
         add('load_all-abandoned-after-one/%s' % be, lambda L=S: _abandon(L, 1))
         add('load_all-abandoned-unstarted/%s' % be, lambda L=S: _abandon(L, 0))
         add('parse-abandoned/%s/error-later' % be, lambda L=S: repr(E.describe(next(iter(yaml.parse('a: 1\n--- [\n', Loader=L))))))
+    for text in ('10', '1-5', 'a-b', 'yes', '[1-5, 10, n-o, ~]'):
+        add('compose/custom-resolvers/%s' % text, lambda t=text: repr(node_canon([yaml.compose(t, Loader=RLoader)])))
+    add('dump/custom-resolvers', lambda: yaml.dump(['1-5', 'a-b', '10', 'yes', 'x'], Dumper=RDumper))
+    add('dump/custom-resolvers/ints', lambda: yaml.dump([10, 'n', '7-7'], Dumper=RDumper))
     for be, SD, D in (('py', yaml.SafeDumper, yaml.Dumper), ('c', yaml.CSafeDumper, yaml.CDumper)):
         add('dump/%s/scalars' % be, lambda Dm=SD: yaml.dump([1, 'a', None, 2.5, 'yes', '1', b'x'], Dumper=Dm))
         add('dump/%s/shared' % be, lambda Dm=SD: yaml.dump(_shared(), Dumper=Dm))
